@@ -2,6 +2,7 @@
 (* Trace validation for X02.  Events are independent evaluations of the real code:
      ttl   dns.ttl.from_text(text)            range  dns.grange.from_text(text)
      make  dns.ttl.make(text)                 cmp / add    one ROW of dns.serial.Serial results
+     via   the same TTL text through six other documented entry points
      cmp32 / add32  32-bit serials on two 16-bit limbs
    Results are recomputed with TtlParse / RangeParse / RFC 1982.
 
@@ -36,6 +37,20 @@ TtlClauses(text, r, pre) ==
                 /\ C(pre \o "Value", IsOk(q) /\ r[1] = "ok" => r[2] = BToCodes(q[2]))
 TTtl == e.op = "ttl" /\ TtlClauses(e.text, e.res, "Ttl") /\ Adv
 TMake == e.op = "make" /\ (Strict => TtlClauses(e.text, e.res, "Make")) /\ Adv
+
+(* the other entry points that take a TTL as text read the same language: Tokenizer.get_ttl,
+   the $TTL directive (RFC 2308 section 4), the TTL field of a record line (RFC 1035 5.1),
+   read_rrsets(ttl=) / read_rrsets(default_ttl=), Rdataset.update_ttl.  Which error: free. *)
+TVia ==
+    /\ e.op = "via"
+    /\ LET q == TtlParse(e.text)
+       IN  IF Foreign(e.text) THEN TRUE
+           ELSE \A k \in 1..Len(e.res) :
+                  LET r == e.res[k]
+                  IN  /\ C("ViaWellFormedAccepted_" \o e.vias[k], IsOk(q) /\ ~RepeatsUnit(e.text) => r[1] = "ok")
+                      /\ C("ViaRefused_" \o (IF IsOk(q) THEN "-" ELSE q[2]) \o "_" \o e.vias[k], ~IsOk(q) => r[1] = "err")
+                      /\ C("ViaValue_" \o e.vias[k], IsOk(q) /\ r[1] = "ok" => r[2] = BToCodes(q[2]))
+    /\ Adv
 
 TRange ==
     /\ e.op = "range"
@@ -96,6 +111,6 @@ TAdd32 ==
     /\ (Strict => C("SerialArithmeticStrict32_" \o e.kind \o "_" \o e.operand, e.res = Add32Expect(e.kind, e.a, e.neg, e.n)))
     /\ Adv
 
-TraceNext == l <= Len(Ev(t)) /\ (TTtl \/ TMake \/ TRange \/ TCmp \/ TAdd \/ TRowLen \/ TCmp32 \/ TAdd32)
+TraceNext == l <= Len(Ev(t)) /\ (TTtl \/ TMake \/ TVia \/ TRange \/ TCmp \/ TAdd \/ TRowLen \/ TCmp32 \/ TAdd32)
 Accepted == Accepting(t, l)
 =============================================================================
